@@ -9,7 +9,7 @@ from . import common as K
 ID = "C12"
 LEVEL = "exploration"
 RULE = ("generated filters for random definitions in each control x calibration combination x sensor count in "
-        "{0,1,2,3} x max_dt_sec in {0.01,0.1,0.5,0.0123456789,1/3,0.25000000000000006,2.5e-7,7.7e-5}; compiled "
+        "{0,1,2,3} x max_dt_sec in {0.01,0.1,0.5,0.0123456789,1/3,0.25000000000000006,2.5e-7,7.7e-5,1e-9 (the smallest accepted)}; compiled "
         "constants read back; one translation unit per filter instantiates "
         "ManagedFilter<generated::ExtendedKalmanFilter> (static_assert compatible) and "
         "ManagedFilter<Rec> where Rec derives from the generated filter and logs every process_model dt, readings "
@@ -49,7 +49,9 @@ def run_unit(unit, ctx):
     i = unit["i"]
     has_ctl, has_cal = bool(i & 1), bool(i & 2)
     nsens = (i // 4) % 4
-    md = rng.choice([0.01, 0.1, 0.5, 0.0123456789, 1.0 / 3.0, 0.25000000000000006, 2.5e-7, 7.7e-5])
+    md = rng.choice([0.01, 0.1, 0.5, 0.0123456789, 1.0 / 3.0, 0.25000000000000006, 2.5e-7, 7.7e-5, 1e-9])
+    if unit["i"] % 8 == 5:
+        md = 1e-9   # the smallest step the generator accepts
     defn = gen.contractive_program(rng, n_state=(1, 3), n_control=(1, 2) if has_ctl else (0, 0),
                                    n_calib=(1, 2) if has_cal else (0, 0), n_sensor=(nsens, nsens),
                                    n_reading=(1, 3), depth=1, n_shared=(0, 1))
